@@ -187,7 +187,18 @@ def _name_shapes(ctx, q):
     from props.C14 import PushConfigParse
     pc = PushConfigParse()
     pc.id = 'C17.i-push-endpoint'
-    return out + [a, b, h1, h2, pc]
+    # a CreateSubscription that is refused (subscription and topic in different projects, name taken) leaves nothing behind
+    from props.C16 import CreateSubscription
+    cs = CreateSubscription(ctx, abandon=False)
+    cs.id = 'C17.j-refused-create-changes-nothing'
+    # a page token is client input: any offset it decodes to (also one beyond the end) is served without a panic (C13.c's obligations)
+    from props.C13 import ListFn
+    ls = []
+    for which in ('topics', 'subs', 'topicsubs'):
+        lf = ListFn(ctx, which, 3 if q else 4)
+        lf.id = lf.id.replace('C13.c-', 'C17.k-any-offset-')
+        ls.append(lf)
+    return out + [a, b, h1, h2, pc, cs] + ls
 
 
 def _create_numbers():
